@@ -417,7 +417,7 @@ PROPS["C08"] = {'assumptions': ['the classad library (github.com/PelicanPlatform
 # ---- additions of the coverage round (C08 C09 C13 C14): appended so that the entries above stay as merged ----
 PROPS["C13"]["level_text"] += (
     " Added: total_framing_noend / linear_framing_noend / oversize_header_refused (stream.ReceiveFrame and its callers GetSecret / GetFile: every wire byte "
-    "string; a header above MaxMessageSize is refused with nothing allocated; GetFile writes no more than the wire delivered), handshake_ads_capped / "
+    "string; a header above MaxMessageSize is refused with nothing allocated; GetFile writes no more than the wire delivered), variable_sized_allocations_declared (regenerated table of every slice allocation sized by a variable in the packages that handle peer input is within a declared list of sites whose size is bounded first), handshake_ads_capped / "
     "handshake_ads_bounded (decide over the regenerated table CedarGen.FactsAdRead of ALL ClassAd-reader calls in security/ and ccb/: each is "
     "GetClassAdWithMaxSize with a constant cap in 1..64 KiB), total_linear_subprotocols (kerberos request blob, optional raw fields of the token exchange), "
     "cap_exceeded_fails (a capped read FAILS once the cap is exceeded: plaintext, encrypted, ClassAd budget). Engine: ReceiveFrame / GetSecret / GetFile "
